@@ -222,7 +222,7 @@ func constrain(k *xzCase, big bool) {
 	if k.Part == "bytes" && k.N > 3000 {
 		k.N = 3000
 	}
-	if k.N > 300000 && !big {
+	if k.N > 300000 && !big && !strings.HasPrefix(k.ID, "big") {
 		k.N = 300000
 	}
 }
